@@ -397,3 +397,15 @@ Theorem C18_convolve_kernel_linear : forall (m : mode) (y k1 k2 : vec) (a b : Q)
   end.
 Proof. exact convolve_kernel_linear. Qed.
 Print Assumptions C18_convolve_kernel_linear.
+
+(* pad_edges with an index-function padding mode (np_src of ANY source-index function of the length: numpy's
+   edge/reflect/symmetric/wrap) only COPIES data points: it commutes with every pointwise map f, for every
+   length and pad length, and f(y) is rejected exactly when y is (same error). *)
+Theorem C18_pad_index_modes_copy : forall (src : Z -> Z -> Z) (f : Q -> Q) (y : vec) (p : Z),
+  match pad_edges y p (NpMode (np_src src)), pad_edges (vmap f y) p (NpMode (np_src src)) with
+  | Ok o1, Ok o => vlen o = vlen o1 /\ forall i, vget o i = f (vget o1 i)
+  | Err e1, Err e => e1 = e
+  | _, _ => False
+  end.
+Proof. exact pad_src_map. Qed.
+Print Assumptions C18_pad_index_modes_copy.
